@@ -66,9 +66,19 @@ LEVEL_NOTE = ("floating-point rounding is not modelled (tolerance run; the ampli
               "must answer for the endpoints it was constructed with (compared with a tracer built from private copies "
               "and with RK4 from the original source) and must not write into the caller's buffers; a "
               "re-used tracer (attributes reassigned) must answer like a fresh one, and earlier paths must keep their "
-              "values when later tracers are solved; not claimed: depths "
-              "where n(z) is indistinguishable from n0 in double precision (n0-n < 1e-13 n0; the Specialized tracer "
-              "raises ValueError there) and BasicRayTracer with |z_from - z_to| < dz (returns no solutions)")
+              "values when later tracers are solved; known finding K26 (uniform-index treatment below "
+              "z_uniform: unbounded ray error for long near-horizontal deep rays; C01_deep_branch_not_exact proves the "
+              "inexactness, the search reports residues inside the first-order bound as K26, beyond it as violations) "
+              "and K27 (numeric indirect path: length/tof deficit from z_turn_proximity and from legs that get no "
+              "trapezoid cell, deficit-only allowance); hypotheses of the theorems that exclude inputs: 0<k, 0<a "
+              "(not an ice otherwise: the code returns nothing or raises, probed), n>0 on the segment (physical), "
+              "beta>tolerance (else C01_near_vertical_branch/K3), beta<=n at the upper end (ray exists; brentq bracket), "
+              "cell counts >= 1 (0-cell legs: K7/K27), dz>0 (dz<=0: raises or nothing, probed); the whole valid range is "
+              "sampled; where index(z1)/index(z0) rounds to 1 for different depths or an index rounds to n0 the "
+              "tracers raise ValueError('... NaN') / OverflowError and return nothing (crash_class: exactly these "
+              "exception types are accepted in exactly this class, same mechanism as K11/K17); a rare ValueError NaN "
+              "of the numeric tracer next to the shadow boundary and BasicRayTracer with |z_from - z_to| < dz "
+              "(returns no solutions) return no path and are counted, not claimed")
 ASSUMPTIONS = ["scipy.optimize.brentq terminates; its result is only used after the certificate check",
                "np.linspace / trapz(trapezoid) follow their mathematical specification",
                "the RK4 oracle (step 0.5 m in arc length, substeps of 8 mm around turning points, bisection onto "
@@ -107,6 +117,8 @@ def ices(run, nrandom):
         k = run.rng.uniform(0.2, min(0.6, n0 - 1.05))
         a = 10 ** run.rng.uniform(-2.2, -1.4)
         lo = -run.rng.uniform(1500, 3500)
+        if run.rng.random() < 0.2:
+            lo = -run.rng.uniform(250, 600)       # shallow valid range: depth_with_index clamps z_uniform to lo
         # top of the valid range at or below 0, declared indices outside the range default / None / custom
         hi = run.rng.choice([0, 0, -round(run.rng.uniform(5, 60), 1)])
         ab = run.rng.choice([1, 1, None, 1.2])
@@ -143,7 +155,19 @@ def z_uniform_impl(ice):
 
 
 GEOM_CLASSES = ["shallow", "deep", "across", "near_vertical", "k3_region", "near_direct_max", "near_indirect_max",
-                "equal_depth", "vertical", "bounds", "outside"]
+                "equal_depth", "vertical", "bounds", "outside", "deep_far", "basic_turn_near"]
+
+
+def crash_class(ice, z_from, z_to):
+    """inputs on which the unchanged tracers raise instead of returning paths: the index at an endpoint is not
+    distinguishable from n0 in double precision (depth_with_index gives -inf -> OverflowError in the numeric
+    tracer) or index(z1)/index(z0) rounds to 1 for different depths (max_angle = pi/2, alpha = 0 -> ValueError
+    'function value ... is NaN' from brentq).  No path is returned, so the property is not broken; the search
+    accepts exactly ValueError / OverflowError in exactly this class."""
+    with np.errstate(all="ignore"):
+        na, nb = float(ice.index(z_from)), float(ice.index(z_to))
+    return na == float(ice.n0) or nb == float(ice.n0) or (z_from != z_to and na == nb) \
+        or min(na, nb) / max(na, nb) == 1.0
 
 
 def geometry(run, ice, cls_name):
@@ -153,7 +177,8 @@ def geometry(run, ice, cls_name):
     # below this depth n(z) is not distinguishable from n0 in double precision (n0 - n < 1e-13 n0): there
     # max_angle = arcsin(n(z1)/n(z0)) rounds to pi/2 and the Specialized tracer divides by alpha = 0
     # (it raises ValueError: no path is returned, outside the claim; see LEVEL_NOTE)
-    lo = max(lo, math.log(1e-13 * ice.n0 / ice.k) / ice.a)
+    # (hypothesis audit) the whole valid range is sampled, the depths where n(z) rounds to n0 included: the
+    # tracers work there in general; they crash exactly in `crash_class` below, which the search recognises
     top = hi - 3
     rng = run.rng
     if cls_name == "outside":
@@ -216,6 +241,29 @@ def geometry(run, ice, cls_name):
         if rng.random() < 0.5:
             za, zb = zb, za
         return float(za), float(round(zb, 3)) if za == special else float(zb), float(rho)
+    elif cls_name == "deep_far":
+        # long, nearly horizontal rays between deep points (incl. equal deep depths): where the uniform-index
+        # treatment below z_uniform matters most (known finding K26)
+        if zu - 20 < lo + 20:
+            return None
+        za = rng.uniform(max(lo + 10, zu - 1500), zu - 10)
+        zb = za if rng.random() < 0.3 else min(zu - 5, max(lo + 5, za + rng.uniform(-200, 200)))
+        rho = 10 ** rng.uniform(math.log10(3e3), math.log10(4e4))
+        if rng.random() < 0.3:
+            rho = rng.uniform(50, 3000)
+    elif cls_name == "basic_turn_near":
+        # numeric tracer, ray turning over within a few dz above the higher endpoint (known finding K27)
+        dzc = rng.choice([0.1, 1, 5])
+        if max(lo + 60, -600, zu + 20) >= top - 30:
+            return None
+        z1 = rng.uniform(max(lo + 60, -600, zu + 20), top - 30)
+        ztn = z1 + rng.uniform(0.2, 5) * dzc
+        beta = ice.n0 - ice.k * math.exp(ice.a * ztn)
+        z0 = z1 - rng.uniform(0.5, 40)
+        rho = turn_leg(ice, beta, z0, ztn, "tan") + turn_leg(ice, beta, z1, ztn, "tan")
+        if not rho < 2.0e4:
+            return None
+        za, zb = z0, z1
     elif cls_name == "equal_depth":
         # shallow only: in (numerically) uniform deep ice a ray between equal depths turns with
         # alpha = n0^2 - beta^2 ~ 1e-8, where every closed form is rounding noise
@@ -448,7 +496,7 @@ def rk4_trace(ice, z_from, theta0, z_to, direct, h=0.5, smax=2.0e5):
                 # the ray reaches the top of the ice or turns over inside this step: redo the step in
                 # substeps so that a grazing ray is classified correctly (surface first, then turn-over)
                 hs = h / 64
-                while True:
+                for _sub in range(130):       # the event lies within this step; never march on in substeps
                     ys = step(y, hs)
                     if ys[1] >= hi:               # top of the ice: reflect exactly there
                         hh = land(y, hs, lambda u: u[1] - hi)
@@ -470,6 +518,8 @@ def rk4_trace(ice, z_from, theta0, z_to, direct, h=0.5, smax=2.0e5):
                     z_top = max(z_top, ys[1])
                     y = ys
                     s += hs
+                else:
+                    continue                  # event not reproduced in substeps: go on with full steps
                 phase = 1
                 continue
             z_top = max(z_top, y2[1])
@@ -582,6 +632,12 @@ def float_slack(ice, z_from, z_to, beta, direct):
     dl += n0 / sa * span * rel_a
     dt += n0 * n0 / (sa * C) * span * rel_a
     if turning:
+        # z_turn = log((n0 - beta)/k)/a: n0 - beta is a cancelling difference in (numerically) uniform deep ice
+        dzt = 4 * eps * n0 / (max(n0 - b, 1e-300) * a)
+        dr += 2 * b / sa * dzt
+        dl += 2 * n0 / sa * dzt
+        dt += 2 * n0 * n0 / (sa * C) * dzt
+    if turning:
         sg = math.sqrt(8 * eps) * b                      # sqrt(gamma) at the turning depth
         dl += 2 * sg / (b * a)
         dt += 2 * (sg + n0 * sg / b) / (a * C)
@@ -640,6 +696,50 @@ def in_k8_class(ice, z_from, z_to, theta0):
     return low_angle(ice, z_from, z_to, theta0) > ma - link_range() * (1 + 1e-3)
 
 
+def turn_leg(ice, beta, za, zt, which):
+    """integral over [za, zt] of tan / sec / n sec / c of the ray with invariant beta that turns at zt
+    (n(zt) = beta): Gauss-Legendre after z = zt - u^2, which removes the inverse-square-root singularity"""
+    xs, ws = np.polynomial.legendre.leggauss(48)
+    U = math.sqrt(max(zt - za, 0.0))
+    u = 0.5 * U * (xs + 1)
+    z = zt - u * u
+    nz = ice.n0 - ice.k * np.exp(ice.a * z)
+    g = np.maximum(nz * nz - beta * beta, 1e-300)
+    w = {"tan": beta, "sec": nz, "tof": nz * nz / C}[which]
+    return float(np.sum(ws * 0.5 * U * 2 * u * w / np.sqrt(g)))
+
+
+def k27_allowance(ice, z_from, z_to, theta0, dz):
+    """known finding K27: what the z_turn_proximity cut of the numeric indirect path can explain - a DEFICIT of
+    path length / tof of at most the part of both legs inside [z_turn - dz/10, z_turn] (the trapezoid sums
+    themselves over-estimate: the integrands are convex).  -> (d_len, d_tof) or None when the ray reflects"""
+    n = lambda z: ice.n0 - ice.k * math.exp(ice.a * z)
+    beta = n(z_from) * math.sin(theta0)
+    if beta < n(ice.valid_range[1]) or beta >= ice.n0:
+        return None
+    zt = math.log((ice.n0 - beta) / ice.k) / ice.a
+    ze = zt - dz / 10
+    al, at = 2 * turn_leg(ice, beta, ze, zt, "sec"), 2 * turn_leg(ice, beta, ze, zt, "tof")
+    for z in (z_from, z_to):
+        if int(abs(ze - z) / dz) == 0:
+            # a leg shorter than dz gets no trapezoid cell at all: it is omitted completely
+            al += abs(turn_leg(ice, beta, min(z, ze), zt, "sec") - turn_leg(ice, beta, ze, zt, "sec"))
+            at += abs(turn_leg(ice, beta, min(z, ze), zt, "tof") - turn_leg(ice, beta, ze, zt, "tof"))
+    return al, at
+
+
+def in_k27_class(ice, z_from, z_to, theta0, dz):
+    """input class of known finding K27 (Basic tracer, indirect solutions): refractive turn-over below the
+    surface with the higher endpoint within 5 dz of the turning depth - the ray is nearly horizontal over a short
+    upper leg, where the path omitted by z_turn_proximity is not compensated by the trapezoid over-estimate"""
+    n = lambda z: ice.n0 - ice.k * math.exp(ice.a * z)
+    beta = n(z_from) * math.sin(theta0)
+    if beta < n(ice.valid_range[1]) or beta >= ice.n0:
+        return False
+    zt = math.log((ice.n0 - beta) / ice.k) / ice.a
+    return zt - max(z_from, z_to) <= 5 * dz
+
+
 def basic_budget(ice, z_from, z_to, theta0, direct, dz):
     """discretisation error bounds for the numeric tracer from the monotone-trapezoid theorem
     (h |f(b)-f(a)| / 2 per leg) plus, for indirect paths, the part cut off by z_turn_proximity.
@@ -660,8 +760,14 @@ def basic_budget(ice, z_from, z_to, theta0, direct, dz):
                 out[i] += abs(b_ - a_) * max(fn(a_), fn(b_))
             return
         h = abs(b_ - a_) / m
+        # composite trapezoid rule on a function of bounded variation: |T - integral| <= h V(f) / 2 (the
+        # monotone bound h |f(b) - f(a)| / 2 is the special case; tan and sec are monotone in z, but
+        # n sec(theta) = n^2/sqrt(n^2 - beta^2) is not - it turns where n^2 = 2 beta^2 - so its variation is
+        # measured on a fine grid instead of being read off the end points)
+        zs_ = [a_ + (b_ - a_) * j / 400.0 for j in range(401)]
         for i, fn in enumerate((ftan, fsec, ftof)):
-            out[i] += h * abs(fn(b_) - fn(a_)) / 2
+            vals = [fn(z_) for z_ in zs_]
+            out[i] += h * sum(abs(v2 - v1) for v1, v2 in zip(vals, vals[1:])) / 2
     if direct:
         leg(z_from, z_to)
         return tuple(out)
@@ -709,9 +815,12 @@ def formula_requests(run, name, ice):
     lo, hi = ice.valid_range
     items = []
     for j in range(run.scale(6, 40)):
-        z = run.rng.uniform(max(lo, -1800), hi)
-        nz = ice.n0 - ice.k * math.exp(ice.a * z)
         kind = run.rng.choice(["shallow", "shallow", "small", "edge", "beyond", "deep"])
+        # the shallow closed forms are only ever evaluated at z >= z_uniform (below it the code takes the deep
+        # branch; far below, log_term_1 rounds to <= 0 and both sides are -inf / NaN): sample the reachable part
+        zu_f = max(lo, z_uniform_impl(ice))
+        z = run.rng.uniform(max(lo, -1800), hi) if kind == "deep" else run.rng.uniform(min(zu_f, hi - 1), hi)
+        nz = ice.n0 - ice.k * math.exp(ice.a * z)
         if kind == "small":
             beta = run.rng.uniform(0, tol * 0.999)
         elif kind == "edge":
@@ -814,6 +923,8 @@ def case_list(run, quick_n, thorough_n, basic_every):
     i = 0
     for rep in range(n):
         for cname in GEOM_CLASSES:
+            if cname == "deep_far" and rep % 3:
+                continue
             name, ice = il[i % len(il)]
             i += 1
             g = geometry(run, ice, cname)
@@ -822,6 +933,9 @@ def case_list(run, quick_n, thorough_n, basic_every):
                 continue
             zf, zt, rho = g
             dz = run.rng.choice([0.1, 1, 5])
+            if cname == "basic_turn_near":
+                cases.append((name, ice, cname, zf, zt, rho, "basic", dz))
+                continue
             cases.append((name, ice, cname, zf, zt, rho, "specialized", dz))
             if (i + rep) % basic_every == 0:
                 cases.append((name, ice, cname, zf, zt, rho, "basic", dz))
@@ -951,7 +1065,15 @@ def correspondence(run):
             run.count("k8_solutions")
             # slope of the interpolation is (link_dist - direct_r_max)/link_range ~ 1e6 m/rad: angle rounding
             # of 1e-12 rad moves r by ~1e-6 * few m
-            if got is not None and len(got) == 2 and abs(got[1] - ex[1]) <= 1e-4 * max(1.0, ex[1]) * 1e-1:
+            # (for a turn-over in numerically uniform deep ice alpha = n0^2 - beta^2 is rounding noise and so
+            # is the r function of model and implementation alike: tolerance widened by that noise, counted)
+            kk = [float(fw.b2f(tk)) for tk in rq.split()[1:4]]
+            nz0 = kk[0] - kk[1] * math.exp(kk[2] * min(d[2], d[3]))
+            alpha_ = max(kk[0] ** 2 - (nz0 * math.sin(d[4])) ** 2, 1e-300)
+            noise = min(1.0, 1e3 * 4 * 2.3e-16 * kk[0] ** 2 / alpha_)
+            if noise > 1e-3:
+                run.count("k8cert_alpha_noise_region")
+            if got is not None and len(got) == 2 and abs(got[1] - ex[1]) <= 1e-5 * max(1.0, ex[1]) + noise * ex[1]:
                 run.traces += 1
             else:
                 ok = False
@@ -1156,6 +1278,42 @@ def k9_still_fails():
     return abs(ls[0] - ls[1]) if abs(ls[0] - ls[1]) > 0.1 else None
 
 
+def k26_still_fails():
+    """(0,0,-1000)->(30000,0,-900) in AntarcticIce, direct solution of the Specialized tracer: the launched ray
+    reaches the receiver depth more than 1 km away from the receiver"""
+    rt, im = _pyrex()
+    ice = im.AntarcticIce()
+    t = rt.SpecializedRayTracer((0, 0, -1000.), (30000., 0, -900.), ice)
+    far = False
+    for p in t.solutions:
+        if p.direct:
+            res = rk4_trace(ice, -1000.0, float(p.theta0), -900.0, True, h=2.0, smax=1.0e5)
+            far = "fail" in res or abs(res["r"] - 30000.0) > 1000.0
+    # second recorded input (short pair, relayed by the C03 audit): GreenlandIce, both endpoints just below
+    # z_uniform = -410.4 m, rho = 27.96 m, 0.3 m apart in depth: the launched ray misses by 2.3 m
+    ice2 = im.GreenlandIce()
+    A = (438.4364097618236, -430.2656341067369, -417.8831960146711)
+    B = (425.10359246806445, -405.6917693131539, -417.5831960146711)
+    t2 = rt.SpecializedRayTracer(A, B, ice2)
+    short = False
+    for p in t2.solutions:
+        if p.direct:
+            res = rk4_trace(ice2, A[2], float(p.theta0), B[2], True, h=0.05, smax=500.0)
+            short = "fail" in res or abs(res["r"] - float(t2.rho)) > 1.0
+    return far or short
+
+
+def k27_still_fails():
+    """BasicRayTracer((0,0,-170),(430,0,-195), dz=1): the turning solution reports a path shorter than the chord"""
+    rt, im = _pyrex()
+    ice = im.AntarcticIce()
+    t = rt.BasicRayTracer((0, 0, -170.), (430., 0, -195.), ice, dz=1)
+    with np.errstate(all="ignore"):
+        sols = list(t.solutions)
+    chord = math.hypot(430.0, 25.0)
+    return any((not p.direct) and float(p.path_length) < chord - 1.0 for p in sols)
+
+
 def known_probes(run):
     bad = k3_still_fails()
     if bad:
@@ -1169,6 +1327,10 @@ def known_probes(run):
     if bad:
         run.extra["K8_probe"] = {"input": K8_INPUT, "launched_ray_lands_at_r": bad}
         run.known_finding("K8")
+    if k26_still_fails():
+        run.known_finding("K26")
+    if k27_still_fails():
+        run.known_finding("K27")
     jit = k9_still_fails()
     if jit:
         run.extra["K9_probe"] = {"input": K9_INPUT, "path_length_jitter_m": jit}
@@ -1189,6 +1351,7 @@ def check_solution(run, name, ice, cname, A, B, tname, dz, t, p, h, extra=None):
     k3 = tname == "specialized" and in_k3_class(ice, zf, zt, rho, direct)
     k7 = tname == "basic" and not direct and in_k7_class(ice, zf, zt, th, dz)
     k8 = tname == "specialized" and not direct and in_k8_class(ice, zf, zt, th)
+    k27 = tname == "basic" and not direct and not k7 and in_k27_class(ice, zf, zt, th, dz)
     fk = "K3" if k3 else "K7" if k7 else "K8" if k8 else None
     if fk:
         run.count("search_%s_class" % fk.lower())
@@ -1214,7 +1377,9 @@ def check_solution(run, name, ice, cname, A, B, tname, dz, t, p, h, extra=None):
         run.fail_input("emitted-direction", inp, observed=list(em), expected=list(e_exp),
                        what="emitted direction is not (theta0, azimuth towards the receiver)")
         return
-    res = rk4_trace(ice, zf, th, zt, direct, h=h)
+    # the reported path length is used only to cap the march (3x), never as the oracle's answer
+    res = rk4_trace(ice, zf, th, zt, direct, h=h if rho < 5000 else max(h, 2.0),
+                    smax=min(4.0e5, 3 * abs(L) + 2000.0) if math.isfinite(L) else 4.0e5)
     # sense of the directions (holds in every class, the K3 band and exactly vertical pairs included): a direct
     # ray heads vertically towards the receiver at both ends, an indirect ray starts upward and arrives downward
     if direct:
@@ -1232,9 +1397,14 @@ def check_solution(run, name, ice, cname, A, B, tname, dz, t, p, h, extra=None):
         return
     if "fail" in res:
         # K3 only explains a small horizontal miss, never a ray that does not reach the receiver depth
+        key = fk if fk != "K3" else None
+        if key is None and tname == "specialized" and "did not reach" in res["fail"]:
+            beta_ = float(ice.index(zf)) * math.sin(th)
+            if 3 * deep_slack(ice, zf, zt, beta_, direct)[0] > 1e3:
+                key = "K26"     # a turn-over in numerically uniform deep ice takes > smax of path
         run.fail_input("no-arrival", inp, observed=res, expected="ray arrives at the receiver depth",
                        what="launched in the reported direction the ray never reaches the receiver: " + res["fail"],
-                       finding_key=fk if fk != "K3" else None)
+                       finding_key=key)
         return
     beta = float(ice.index(zf)) * math.sin(th)
     if tname == "specialized":
@@ -1243,6 +1413,19 @@ def check_solution(run, name, ice, cname, A, B, tname, dz, t, p, h, extra=None):
         tol_r = 2e-6 * max(1.0, rho) + 3 * dr + fr + 2e-6
         tol_l = 1e-7 * L + 3 * dl + fl_ + 2e-6
         tol_t = 1e-7 * tof + 3 * dt + ft + 1e-14
+        # known finding K26: where the first-order bound of the uniform-index treatment below z_uniform is not
+        # negligible (> 1 cm: long near-horizontal rays in deep ice) a residue inside that bound is reported as
+        # KNOWN-FINDING K26; beyond the bound it is a violation like everywhere else
+        if fk is None and 3 * dr > 1e-2:
+            run.count("search_k26_class")
+            t_r, t_l, t_t = tol_r - 3 * dr + 1e-2, tol_l - 3 * dl + 1e-2, tol_t - 3 * dt + 1e-2 / C
+            if abs(res["r"] - rho) > t_r or abs(res["s"] - L) > t_l or abs(res["tof"] - tof) > t_t:
+                if abs(res["r"] - rho) <= tol_r and abs(res["s"] - L) <= tol_l and abs(res["tof"] - tof) <= tol_t:
+                    run.fail_input("deep-approximation", inp,
+                                   observed={"miss": res["r"] - rho, "dlen": res["s"] - L, "dtof": res["tof"] - tof},
+                                   expected={"first_order_bound_r_len_tof": [3 * dr, 3 * dl, 3 * dt]},
+                                   what="residue inside the first-order bound of the uniform-index treatment below "
+                                        "z_uniform", finding_key="K26")
         # known finding K9 (registered under C02, also visible here): where the amplified-rounding budget of
         # log_term_1 is not negligible (> 1 mm) a residue inside that budget is reported as KNOWN-FINDING K9;
         # beyond the budget it is a violation like everywhere else
@@ -1260,6 +1443,27 @@ def check_solution(run, name, ice, cname, A, B, tname, dz, t, p, h, extra=None):
         tol_r = 1e-6 * max(1.0, rho) + 1.5 * dr + 1e-5
         tol_l = 1e-7 * L + 1.5 * dl + 1e-5
         tol_t = 1e-7 * tof + 1.5 * dt + 1e-13
+        if k27:
+            # known finding K27: a length / tof DEFICIT above 0.5 % is reported, and it is explained only up to
+            # the path omitted inside z_turn_proximity; anything else keeps the bounds above
+            run.count("search_k27_class")
+            al, at = k27_allowance(ice, zf, zt, th, dz)
+            d_len, d_tof = res["s"] - L, res["tof"] - tof
+            if d_len > 5e-3 * res["s"] or d_tof > 5e-3 * res["tof"]:
+                if d_len <= 1.05 * al + 1e-6 and d_tof <= 1.05 * at + 1e-15:
+                    run.fail_input("turn-proximity-deficit", inp,
+                                   observed={"path_length": L, "rk4_arc_length": res["s"], "tof": tof,
+                                             "rk4_tof": res["tof"]},
+                                   expected={"omitted_within_z_turn_proximity_len_tof": [al, at]},
+                                   what="path length / tof short by the part of the ray inside z_turn_proximity",
+                                   finding_key="K27")
+                else:
+                    run.fail_input("path-length", inp, observed={"path_length": L, "tof": tof},
+                                   expected={"rk4_arc_length": res["s"], "rk4_tof": res["tof"],
+                                             "k27_allowance": [al, at]},
+                                   what="path length / tof deficit of a turning numeric path exceeds what "
+                                        "z_turn_proximity omits")
+                    return
     # in the K3 class the finding explains residues up to k3_slacks(...) and nothing beyond them
     k3r, k3l, k3t, k3d = k3_slacks(ice, zf, zt, direct) if k3 else (0.0, 0.0, 0.0, 0.0)
 
@@ -1320,7 +1524,55 @@ def check_solution(run, name, ice, cname, A, B, tname, dz, t, p, h, extra=None):
     run.count("oracle_ok_%s_%s" % (tname, "direct" if direct else ("reflected" if res["reflected"] else "turned")))
 
 
+def degenerate_probes(run):
+    """inputs outside the property's quantifier that the theorems exclude by hypothesis (hypothesis audit): the
+    implementation must reject them or return nothing - never garbage paths.
+    * integration step dz <= 0 (numeric tracer): OverflowError for dz = 0, no solutions for dz < 0
+    * profiles that are not an ice (k <= 0 or a <= 0; theorems assume 0 < k, 0 < a): no solutions, or
+      ValueError / OverflowError from the numeric tracer
+    * identical endpoints: the analytic tracer returns a zero-length path and the vertical up-and-down path"""
+    rt, im = _pyrex()
+    ok_exc = (ValueError, OverflowError, ZeroDivisionError)
+    A, B = (3.0, -4.0, -300.0), (203.0, 50.0, -100.0)
+    probes = [("dz=0", im.AntarcticIce(), "basic", 0), ("dz<0", im.AntarcticIce(), "basic", -1)]
+    for kw in (dict(k=-0.2), dict(k=0.0), dict(a=-0.0132), dict(a=0.0)):
+        for tn in ("specialized", "basic"):
+            probes.append(("ice %s" % kw, im.AntarcticIce(**kw), tn, 1))
+    for label, ice, tn, dz in probes:
+        inp = {"ice": ice_desc("degenerate", ice), "from": list(A), "to": list(B), "tracer": tn, "dz": dz,
+               "class": "degenerate:" + label}
+        run.case(("degenerate", label, tn))
+        try:
+            t, sols, _ = solve(tn, A, B, ice, dz)
+            outcome = "no-solutions" if not sols else "paths"
+        except ok_exc as e:
+            outcome = type(e).__name__
+        except Exception as e:
+            outcome = "other:" + type(e).__name__
+        run.count("degenerate_%s_%s_%s" % (label.split()[0], tn, outcome))
+        if outcome == "paths" or outcome.startswith("other:"):
+            run.fail_input("degenerate-input", inp, observed=outcome,
+                           expected="no solutions or ValueError / OverflowError / ZeroDivisionError",
+                           what="tracer returns paths (or an undocumented exception) for %s" % label)
+    # identical endpoints
+    ice = im.AntarcticIce()
+    P = (10.0, 20.0, -300.0)
+    t, sols, _ = solve("specialized", P, P, ice, 1)
+    run.case(("degenerate", "same-point"))
+    inp = {"ice": ice_desc("antarctic", ice), "from": list(P), "to": list(P), "tracer": "specialized", "dz": 1,
+           "class": "degenerate:same-point"}
+    if len(sols) == 2:
+        if not (float(sols[0].path_length) <= 1e-9 and abs(float(sols[0].tof)) <= 1e-15):
+            run.fail_input("degenerate-input", inp, observed=[float(sols[0].path_length), float(sols[0].tof)],
+                           expected="zero-length first path", what="first path between identical endpoints is not empty")
+        check_solution(run, "antarctic", ice, "degenerate:same-point", P, P, "specialized", 1, t, sols[1], 0.5)
+    elif sols:
+        run.fail_input("solution-count", inp, observed=len(sols), expected="0 or 2 solutions",
+                       what="tracer returned %d solutions" % len(sols))
+
+
 def search(run, deep):
+    degenerate_probes(run)
     n_q, n_t = (25, 300)
     cases = case_list(run, n_q if not deep else n_t, n_t, 3)
     h = 0.5
@@ -1366,10 +1618,13 @@ def search(run, deep):
             if container != "tuple":
                 ref = solve(tname, A, B, ice, dz)[:2]
         except Exception as e:
+            if isinstance(e, (ValueError, OverflowError)) and crash_class(ice, zf, zt):
+                run.count("search_crash_class_%s" % type(e).__name__)
+                continue
             if isinstance(e, ValueError) and "NaN" in str(e):
-                # crash mode of the unchanged tree (brentq meets a NaN of the r function: alpha = 0 in
-                # numerically uniform ice, or arcsin > 1 next to the shadow boundary of the numeric tracer):
-                # no path is returned, so the property (about returned paths) is not broken; recorded
+                # crash mode of the unchanged tree (brentq meets a NaN of the r function: arcsin > 1 next to
+                # the shadow boundary of the numeric tracer): no path is returned, so the property (about
+                # returned paths) is not broken; recorded
                 run.count("search_impl_nan_exception")
                 if len(run.notes) < 10:
                     run.notes.append("implementation raised %s: %s for %s" % (type(e).__name__, e, inp0))
@@ -1441,6 +1696,9 @@ def reuse_sequence(run, name, ice, tname, seq, h=0.5):
                 sols = list(t.solutions)
             ref = solve(tname, A, B, ice, dz)[:2]
         except Exception as e:
+            if isinstance(e, (ValueError, OverflowError)) and crash_class(ice, A[2], B[2]):
+                run.count("search_crash_class_%s" % type(e).__name__)
+                return
             if isinstance(e, ValueError) and "NaN" in str(e):
                 run.count("search_impl_nan_exception")
                 return
